@@ -303,7 +303,12 @@ fn node_edits(s: &Spec, include_sms_name: bool) -> Vec<(&'static str, Spec)> {
               c.push(extra.clone());
               Some(Spec::Concat { how: *how, children: c })
             }
-            Spec::Replace { inner, repls } => append_into(inner, extra).map(|i| Spec::Replace { inner: Box::new(i), repls: repls.clone() }),
+            // replacement positions past the end of the old text come to lie inside the moved text: they
+            // must stay on character boundaries (the callers' precondition), so only ASCII text moves
+            // beneath a ReplaceSource
+            Spec::Replace { inner, repls } if crate::spec::model_bytes(extra).is_ascii() => {
+              append_into(inner, extra).map(|i| Spec::Replace { inner: Box::new(i), repls: repls.clone() })
+            }
             Spec::Boxed(inner) => append_into(inner, extra).map(|i| Spec::Boxed(Box::new(i))),
             _ => None,
           }
